@@ -365,11 +365,11 @@ def extra_search(rng, seeds, tier):
             for d in range(10):
                 out.append(L(int(w[1]), int(w[2]), d, "neighbour"))
     r2 = rng
-    # every day before 2038 with three instants, valid texts, log cases
-    for d in range(0, 24855):
-        for (s, m) in (COMBOS[r2.randrange(25)], COMBOS[r2.randrange(25)], (r2.randrange(86400), r2.randrange(1000))):
+    # every third day before 2038 with two instants, valid texts, log cases
+    for d in range(r2.randrange(3), 24855, 3):
+        for (s, m) in (COMBOS[r2.randrange(25)], (r2.randrange(86400), r2.randrange(1000))):
             out.append(T(d * DAY_NS + s * NS + m * 10 ** 6, "search"))
-    out += [c for c in gen_P(r2, "thorough") if c.cls == "valid-text"]
+    out += [c for c in gen_P(r2, "quick") if c.cls == "valid-text"]
     out += gen_L(r2, "quick")
     return out
 
